@@ -30,6 +30,8 @@ DiffNote == (phase = "paths" /\ phase' = "paths") =>
               \A first \in BOOLEAN :
                  (IF Safe(last, last', first) THEN ImplStep(last, last', first) # DefStep(last, last', first) ELSE TRUE)
                    => PrintT(<<"MODELDIFF", ToJson([last |-> last, cur |-> last', first |-> first])>>)
+(* every string is handed to the real xmlwriter (content and attribute) and read back with a standard XML parser *)
+EmitStr == phase = "str" => PrintT(<<"STR", ToJson([s |-> str, c |-> Escape(str, FALSE), a |-> Escape(str, TRUE)])>>)
 EscapeRoundTrip == phase = "str" => /\ Unescape(Escape(str, FALSE)) = str /\ Unescape(Escape(str, TRUE)) = str
                                     /\ NoMarkup(Escape(str, FALSE)) /\ NoMarkup(Escape(str, TRUE))
 =============================================================================
